@@ -74,8 +74,16 @@ def merge_vertices(
         # this is used for geometry without faces
         referenced = np.ones(len(mesh.vertices), dtype=bool)
 
+    # coordinates too large for an int64 after the multiplication would wrap
+    # around and distinct vertices would be merged: use fewer digits for them,
+    # a float64 of that magnitude has no finer resolution anyway
+    finite = np.abs(mesh.vertices[np.isfinite(mesh.vertices)])
+    peak = float(finite.max()) if finite.size > 0 else 0.0
+    if peak * 10.0**digits_vertex >= 2.0**62:
+        digits_vertex = int(np.floor(np.log10(2.0**62 / peak)))
+
     # collect vertex attributes into sequence we can stack
-    stacked = [mesh.vertices * (10**digits_vertex)]
+    stacked = [mesh.vertices * (10.0**digits_vertex)]
 
     # UV texture visuals require us to update the
     # vertices and normals differently
